@@ -95,20 +95,35 @@ pub enum Wrap {
     Layer,
     /// `Layered` around `InterceptedService`
     Both,
+    /// `InterceptedService` whose interceptor returns a fresh `Request::new(())`
+    IceptFresh,
+    /// … clears the extensions and puts unrelated values of its own there
+    IceptClear,
+    /// … plants an `http::Uri` (the path of the service's *last* method) and an `http::Method`
+    /// of its own in the extensions
+    IceptUri,
+    /// … throws the metadata away and writes its own (among it the path of the last method)
+    IceptMeta,
 }
 
 impl Wrap {
     pub const ALL: [Wrap; 4] = [Wrap::Probe, Wrap::Icept, Wrap::Layer, Wrap::Both];
+    /// interceptors that do not hand back the request they were given
+    pub const REWRITING: [Wrap; 4] = [Wrap::IceptFresh, Wrap::IceptClear, Wrap::IceptUri, Wrap::IceptMeta];
     pub fn token(self) -> &'static str {
         match self {
             Wrap::Probe => "probe",
             Wrap::Icept => "icept",
             Wrap::Layer => "layer",
             Wrap::Both => "both",
+            Wrap::IceptFresh => "icept-fresh",
+            Wrap::IceptClear => "icept-clear",
+            Wrap::IceptUri => "icept-uri",
+            Wrap::IceptMeta => "icept-meta",
         }
     }
     pub fn parse(s: &str) -> Option<Wrap> {
-        Wrap::ALL.into_iter().find(|w| w.token() == s)
+        Wrap::ALL.into_iter().chain(Wrap::REWRITING).find(|w| w.token() == s)
     }
 }
 
@@ -121,6 +136,103 @@ pub enum Reg {
     /// `transport::Server::builder().add_service(first)` then alternately
     /// `Router::add_optional_service(Some(_))` / `Router::add_service(_)`
     Server(tonic::transport::Server, Option<tonic::transport::server::Router>, usize),
+    /// a scripted construction (`plan` cases): the value built so far and the call the next
+    /// service goes through
+    Plan(Plan),
+}
+
+/// The value a `plan` case has built so far.
+pub enum St {
+    Empty,
+    Routes(Routes),
+    Builder(RoutesBuilder),
+    Server(tonic::transport::server::Router),
+}
+
+/// Which call registers the next service.
+#[derive(Clone, Copy, PartialEq, Eq)]
+pub enum How {
+    /// `Routes::new(svc)`
+    New,
+    /// `Server::builder().add_service(svc)`
+    SrvAdd,
+    /// `Server::builder().add_optional_service(Some(svc))`
+    SrvOpt,
+    /// `add_service(svc)` of whatever is being built
+    Add,
+    /// `Router::add_optional_service(Some(svc))` (on `Routes` / `RoutesBuilder`: `add_service`)
+    Opt,
+}
+
+pub struct Plan {
+    pub st: St,
+    pub how: How,
+    server: tonic::transport::Server,
+}
+
+fn plain(status: u16) -> http::Response<axum::body::Body> {
+    http::Response::builder().status(status).header("content-type", "text/plain").body(axum::body::Body::empty()).unwrap()
+}
+async fn user_route() -> http::Response<axum::body::Body> {
+    plain(200)
+}
+async fn user_fallback() -> http::Response<axum::body::Body> {
+    plain(418)
+}
+
+/// A router as a user would make it: `own_fallback` — with a fallback of his own;
+/// `routes` — with two plain routes (one of them below the name of pool service `a.S`).
+pub fn user_router(own_fallback: bool, routes: bool) -> axum::Router {
+    let mut r = axum::Router::new();
+    if routes {
+        r = r.route("/u/hello", axum::routing::any(user_route)).route("/a.S/Own", axum::routing::any(user_route));
+    }
+    if own_fallback {
+        r = r.fallback(user_fallback);
+    }
+    r
+}
+
+impl Plan {
+    /// the first call, for the starts that take no service
+    pub fn start(tok: &str) -> Option<Plan> {
+        let mut server = tonic::transport::Server::builder();
+        let t: Vec<&str> = tok.split(':').collect();
+        let (st, how) = match t.as_slice() {
+            ["new", _] => (St::Empty, How::New),
+            ["srv", _] => (St::Empty, How::SrvAdd),
+            ["srvopt", _] => (St::Empty, How::SrvOpt),
+            ["default"] => (St::Routes(Routes::default()), How::Add),
+            ["builder"] => (St::Builder(Routes::builder()), How::Add),
+            ["axum", fb, u] => (St::Routes(Routes::from(user_router(*fb == "own", *u == "1"))), How::Add),
+            ["baxum", fb, u] => (St::Builder(RoutesBuilder::from(user_router(*fb == "own", *u == "1"))), How::Add),
+            ["srvnone"] => (St::Server(server.add_optional_service(None::<AnyServer>)), How::Add),
+            _ => return None,
+        };
+        Some(Plan { st, how, server })
+    }
+    /// every later call that takes no service; a call the value at hand does not offer is skipped
+    pub fn apply(&mut self, op: &str) -> Option<()> {
+        let st = std::mem::replace(&mut self.st, St::Empty);
+        self.st = match (op, st) {
+            ("none", St::Server(r)) => St::Server(r.add_optional_service(None::<AnyServer>)),
+            ("prepare", St::Routes(r)) => St::Routes(r.prepare()),
+            ("axum", St::Routes(r)) => St::Routes(Routes::from(r.into_axum_router())),
+            ("uroute", St::Routes(mut r)) => {
+                let ar = r.axum_router_mut();
+                *ar = std::mem::take(ar).route("/u/late", axum::routing::any(user_route));
+                St::Routes(r)
+            }
+            ("tobuilder", St::Routes(r)) => St::Builder(RoutesBuilder::from(r)),
+            ("tobuilder-axum", St::Routes(r)) => St::Builder(RoutesBuilder::from(r.into_axum_router())),
+            ("routes", St::Builder(b)) => St::Routes(b.routes()),
+            ("serve", St::Routes(r)) => St::Server(self.server.add_routes(r)),
+            ("serve", St::Builder(b)) => St::Server(self.server.add_routes(b.routes())),
+            ("none" | "prepare" | "axum" | "uroute" | "tobuilder" | "tobuilder-axum" | "routes" | "serve", st) => st,
+            _ => return None,
+        };
+        Some(())
+    }
 }
 
 pub enum Built {
@@ -169,6 +281,22 @@ impl Reg {
                 });
                 *k += 1;
             }
+            Reg::Plan(p) => {
+                let st = std::mem::replace(&mut p.st, St::Empty);
+                p.st = match (p.how, st) {
+                    (How::New, _) => St::Routes(Routes::new(svc)),
+                    (How::SrvAdd, _) => St::Server(p.server.add_service(svc)),
+                    (How::SrvOpt, _) => St::Server(p.server.add_optional_service(Some(svc))),
+                    (_, St::Empty) => St::Routes(Routes::default().add_service(svc)),
+                    (_, St::Routes(r)) => St::Routes(r.add_service(svc)),
+                    (_, St::Builder(mut b)) => {
+                        b.add_service(svc);
+                        St::Builder(b)
+                    }
+                    (How::Opt, St::Server(r)) => St::Server(r.add_optional_service(Some(svc))),
+                    (_, St::Server(r)) => St::Server(r.add_service(svc)),
+                };
+            }
         }
     }
     pub fn finish(self) -> Built {
@@ -176,6 +304,12 @@ impl Reg {
             Reg::Routes(r) => Built::Routes(r.unwrap_or_default()),
             Reg::Builder(b) => Built::Routes(b.routes()),
             Reg::Server(mut server, router, _) => Built::Router(router.unwrap_or_else(|| server.add_routes(Routes::default()))),
+            Reg::Plan(p) => match p.st {
+                St::Empty => Built::Routes(Routes::default()),
+                St::Routes(r) => Built::Routes(r),
+                St::Builder(b) => Built::Routes(b.routes()),
+                St::Server(r) => Built::Router(r),
+            },
         }
     }
 }
@@ -235,6 +369,41 @@ where
         })),
         Wrap::Layer => reg.push(ProbeLayer { i, h }.named_layer(svc)),
         Wrap::Both => reg.push(ProbeLayer { i, h }.named_layer(InterceptedService::new(svc, |r: tonic::Request<()>| Ok(r)))),
+        Wrap::IceptFresh => reg.push(InterceptedService::new(svc, move |_r: tonic::Request<()>| {
+            h.enter(i);
+            Ok(tonic::Request::new(()))
+        })),
+        Wrap::IceptClear => reg.push(InterceptedService::new(svc, move |mut r: tonic::Request<()>| {
+            h.enter(i);
+            r.extensions_mut().clear();
+            r.extensions_mut().insert(7u32);
+            r.extensions_mut().insert(String::from("/a.S/Mx"));
+            Ok(r)
+        })),
+        Wrap::IceptUri => reg.push(InterceptedService::new(svc, move |mut r: tonic::Request<()>| {
+            h.enter(i);
+            r.extensions_mut().insert(http::Uri::try_from(last_method_path(i)).unwrap());
+            r.extensions_mut().insert(http::Method::GET);
+            Ok(r)
+        })),
+        Wrap::IceptMeta => reg.push(InterceptedService::new(svc, move |mut r: tonic::Request<()>| {
+            h.enter(i);
+            r.metadata_mut().clear();
+            r.metadata_mut().insert("x-forwarded-uri", last_method_path(i).parse().unwrap());
+            r.metadata_mut().insert("content-type", "application/grpc+other".parse().unwrap());
+            Ok(r)
+        })),
+    }
+}
+
+/// `/<full name>/<last method>` of pool service `i`
+pub fn last_method_path(i: usize) -> String {
+    let (pkg, name, ms) = POOL[i];
+    let m = ms.last().map(|x| x.0).unwrap_or("");
+    if pkg.is_empty() || !POOL_EMIT[i] {
+        format!("/{name}/{m}")
+    } else {
+        format!("/{pkg}.{name}/{m}")
     }
 }
 
